@@ -13,7 +13,7 @@ import (
 // DriveOracleMeta is the run configuration of DriveOracle in the form of the walker's META line (used for replays).
 func DriveOracleMeta() M {
 	return M{"execs": []any{"e1"}, "client": "cl1", "chain": "l1-chain", "enabled": true, "pairs": []any{"BTC", "ETH", "TS"},
-		"vals": []any{"v1", "v2", "v3", "v4", "v5", "v6", "v7", "z"},
+		"vals":  []any{"v1", "v2", "v3", "v4", "v5", "v6", "v7", "z"},
 		"accts": []any{"e1", "x", "adm", "opchild", "feecollector"}, "denoms": []any{"n1"}, "funded": M{"x": M{"n1": int64(1)}},
 		"params": M{"admin": "adm", "execs": []any{"e1"}, "maxVals": int64(3), "histEntries": int64(1), "hookGas": "ample", "fw": []any{}}, "devs": []any{}}
 }
